@@ -24,6 +24,7 @@ EXPLANATION = (
     "paths with a prefix that ends in the separator.  R09.9: the analysis callback that runs inside every write absorbs ModuleSyntaxError.  Implicit internal exceptions are not decided."
     ' R09.10: a find_module result is tested for None before use in the refactoring modules.'
 )
+EXPLANATION += " R09.5: a resource found by resolving a name is sanitised by a project test only together with a not-ignored (or equal-to-the-caller's) edge on every path."
 EXPLANATION += ' R09.11: a function that remembers its answer under a key reads, in the computation of the remembered value, nothing of its parameters that the key does not contain (followed into the helpers it calls).'
 ASSUMPTIONS = [
     "callee resolution without a type checker: see DESIGN.md section 2 (E2)",
@@ -563,7 +564,7 @@ def _provenance(ctx, res) -> None:
     res.floor("R09.5", "change construction sites", n, 30)
 
 
-def _project_checked(fn_node, expr_norm: str) -> bool:
+def _project_checked(fn_node, expr_norm: str, pv=None) -> bool:
     """`if <expr>.project != <project>: raise ...` (or `== ...` guarding the rest) on the straight-line path of fn:
     after it, <expr> is known to belong to this project."""
     cfg = CFG(fn_node)
@@ -583,6 +584,18 @@ def _project_checked(fn_node, expr_norm: str) -> bool:
                 # the foreign-project edge must only lead to raising
                 reach = cfg.reachable(b)
                 if cfg.exit.id not in reach:
+                    return _ignored_refused(cfg, expr_norm) or _not_ignored_on_every_path(cfg, cfg.exit.id, expr_norm, pv)
+    return False
+
+
+def _ignored_refused(cfg, expr_norm: str) -> bool:
+    """Belonging to the project is not enough for a resource that was found by RESOLVING a name: import resolution does not
+    consult the ignore rules, so the module can be an ignored file -- and every symlink is ignored, whatever it points to.
+    Somewhere in the function `is_ignored(<expr>)` is tested and its true edge only leads to raising."""
+    for n in cfg.nodes:
+        if n.kind == "test" and isinstance(n.ast, ast.Call) and call_name(n.ast) == "is_ignored" and any(norm(a) == expr_norm for a in n.ast.args):
+            for b, lab in cfg.succ[n.id]:
+                if lab == "true" and cfg.exit.id not in cfg.reachable(b):
                     return True
     return False
 
@@ -624,7 +637,28 @@ def _sanitised(idx, cls, f, cfg, node, arg, pv) -> bool:
     return False
 
 
-def _project_guard(cfg, node_id, attr_norm: str) -> bool:
+def _not_ignored_on_every_path(cfg, target: int, expr_norm: str, pv=None) -> bool:
+    """every path from the entry to `target` passes the false edge of an `is_ignored(<expr>)` test -- or an edge on which
+    <expr> EQUALS a value the caller supplied (the caller may point at an ignored file; what must not happen is that a
+    resource found by resolving a name is one)"""
+    avoid = []
+    for n in cfg.nodes:
+        if n.kind != "test":
+            continue
+        t = n.ast
+        if isinstance(t, ast.Call) and call_name(t) == "is_ignored" and any(norm(a) == expr_norm for a in t.args):
+            avoid += [(n.id, b, lab) for b, lab in cfg.succ[n.id] if lab == "false"]
+        if pv is not None and isinstance(t, ast.Compare) and len(t.ops) == 1 and isinstance(t.ops[0], (ast.Eq, ast.NotEq)):
+            for a, b_ in ((t.left, t.comparators[0]), (t.comparators[0], t.left)):
+                if norm(a) == expr_norm and not (pv.of(b_) - {CALLER, PROJECT}):
+                    eq_lab = "true" if isinstance(t.ops[0], ast.Eq) else "false"
+                    avoid += [(n.id, b, lab) for b, lab in cfg.succ[n.id] if lab == eq_lab]
+    if not avoid:
+        return False
+    return target not in cfg.reachable(cfg.entry.id, avoid_edges=avoid)
+
+
+def _project_guard(cfg, node_id, attr_norm: str, pv=None) -> bool:
     """node is only reached when <attr>.project == <this project> (Eq true edge / NotEq false edge), or under the
     `_is_local(...)` shortcut (a function-local variable is defined in the module the caller pointed at)"""
     for t, pol in cfg.guards(node_id):
@@ -633,7 +667,8 @@ def _project_guard(cfg, node_id, attr_norm: str) -> bool:
             if any(isinstance(x, ast.Attribute) and x.attr == "project" and norm(x.value) == attr_norm for x in sides) and \
                     any((isinstance(x, ast.Name) and x.id == "project") or is_self_attr(x, "project") for x in sides):
                 if (isinstance(t.ops[0], ast.Eq) and pol) or (isinstance(t.ops[0], ast.NotEq) and not pol):
-                    return True
+                    # ... and not ignored (see _ignored_refused)
+                    return _not_ignored_on_every_path(cfg, node_id, attr_norm, pv)
         if isinstance(t, ast.Call) and call_name(t) == "_is_local" and pol:
             return True
     return False
@@ -680,7 +715,7 @@ def _derived_sources_checked(idx, cls, f, arg) -> bool:
     for attr, occ in occurrences:
         key = norm(ast.parse(f"self.{attr}", mode="eval").body)
         nodes = cfg.node_containing(occ)
-        ok = bool(nodes) and all(_project_guard(cfg, n.id, key) for n in nodes)
+        ok = bool(nodes) and all(_project_guard(cfg, n.id, key, pv) for n in nodes)
         if not ok and occ is arg:
             # direct use of the attribute: accept if every flow INTO a value it is compared with is guarded (handled by the
             # Eq sanitiser) -- here only constructor-level sanitising can help
@@ -692,7 +727,7 @@ def _derived_sources_checked(idx, cls, f, arg) -> bool:
                     continue
                 for m in c.methods.values():
                     assigns = any(isinstance(n, ast.Assign) and any(is_self_attr(t, attr) for t in n.targets) for n in walk_local(m.node))
-                    if assigns and _project_checked(m.node, key):
+                    if assigns and _project_checked(m.node, key, _Prov(idx, c, m)):
                         ok = True
         if not ok:
             return False
